@@ -90,6 +90,10 @@ def run_probe(task):
             fail("C08", "not_a_fixpoint", "in-engine probe (compiled mode): affine_eq still prunes after %d pass(es) with "
                  "its queue bit clear" % r["not_a_fixpoint_affine_eq_not_queued"], model, cfg,
                  constraint="affine_eq", queued=False, last=False, affine_eq_only=(r["not_a_fixpoint"] == 0))
+        if r["reexecution_fails_affine_eq_not_queued"]:
+            fail("C08", "not_a_fixpoint", "in-engine probe (compiled mode): affine_eq fails when re-executed after %d "
+                 "pass(es) with its queue bit clear" % r["reexecution_fails_affine_eq_not_queued"], model, cfg,
+                 constraint="affine_eq", queued=False, last=False, affine_eq_only=True)
         if len(res["samples"]) < 2 and r["reexecutions"] > 20:
             res["samples"].append({"model": model, "cfg": cfg, "probe_counters": r})
     res["wall"] = time.time() - t0
